@@ -245,6 +245,12 @@ func runC19(res *Result, d *Driver, tier string, seed uint64) {
 		}
 		runtime.GC()
 		base := fdCount(os.Getpid())
+		held := openFdSet() // a "received" descriptor with one of these numbers is not a received descriptor: never close it
+		for fd := range held { // (the listing's own directory descriptor is in the listing and closed by now)
+			if _, _, e := syscall.Syscall(syscall.SYS_FCNTL, uintptr(fd), syscall.F_GETFD, 0); e != 0 {
+				delete(held, fd)
+			}
+		}
 		var mu sync.Mutex
 		var bad []string
 		note := func(f string, x ...any) {
@@ -287,6 +293,11 @@ func runC19(res *Result, d *Driver, tier string, seed uint64) {
 				nf := 1 + k%3
 				okm := n == 4 && buf[0] == tag && int(buf[1])|int(buf[2])<<8|int(buf[3])<<16 == k && len(msg.Fds) == nf
 				for i, fd := range msg.Fds {
+					if held[fd] {
+						okm = false
+						note("message %c #%d reports descriptor number %d, which this process held before the exchange (not a received descriptor)", tag, k, fd)
+						continue
+					}
 					var st syscall.Stat_t
 					if syscall.Fstat(fd, &st) != nil {
 						okm = false
